@@ -461,14 +461,9 @@ func c13SideConditions(c *Ctx, g *load.G) map[string]string {
 		}
 	}
 	// actions-only: toAnySlice is called only from methods of *current
-	for _, fd := range load.AllFuncDecls(g.Pkg("")) {
-		if fd.Body == nil {
-			continue
-		}
-		for _, ce := range callsIn(fd.Body) {
-			if callName(ce) == "toAnySlice" && load.RecvName(fd) != "current" {
-				out["actions-only"] = "toAnySlice called from " + fd.Name.Name
-			}
+	if tas := load.FuncDecl(g.Pkg(""), "", "toAnySlice"); tas != nil {
+		if _, outside := actionCallers(g.Pkg(""), tas, map[*ast.FuncDecl]bool{}); outside != "" {
+			out["actions-only"] = "toAnySlice called from " + outside
 		}
 	}
 	// grammar-action: the action of the first rule of pigeon.go returns a *ast.Grammar
